@@ -70,6 +70,13 @@ func runC17Sio(c *sim.Ctx, t *testing.T) {
 				}
 				pending[id] = true
 				plans[r] = append(plans[r], op)
+				if op.remake == nil && op.d < time.Hour && c.Chance(1, 4, "debounce-when-due") { // (not the hour-long ones: the run ends after three hours)
+					// a watchdog that is fed just as it runs out: the requester sleeps for the
+					// timer's own delay and then has the handler cancel and re-make it
+					db := &vfTmOp{kind: "debounce", id: id, d: vfDelays[c.Intn(len(vfDelays), "d")], payload: newPayload(), debounce: true}
+					byPayload[db.payload] = db
+					plans[r] = append(plans[r], &vfTmOp{kind: "sleep", d: op.d}, db)
+				}
 			case k == 5 && !remade[id]:
 				// a "debounce": one message makes the handler machine emit a cancel and then a
 				// make for the same id, both processed within that one message
